@@ -163,6 +163,13 @@ def c13_spec():
     return {'bins': bins, 'run': run}
 REGISTRY['C13'] = c13_spec()
 
+REGISTRY['C12'] = numeric('C12', 'c12_jet.cpp', build='jet', nq=1500, nt=150000, groups_q=['SO2', 'SE2', 'SO3', 'SE3', 'SE23', 'SGAL3', 'R3', 'BT1'], groups_t=['SO2', 'SE2', 'SO3', 'SE3', 'SE23', 'SGAL3', 'R3', 'R1', 'BT1', 'BT4', 'BA'], float_groups=[],
+                          shard=5000, n_scale={'BT1': 0.5, 'BT4': 0.3, 'SGAL3': 0.6},
+                          rule='operations evaluated over ceres::Jet<double,2*DoF> (stand-in) with unit infinitesimals seeded on every argument; primal parts vs the double instantiation, dual parts of f(X (+) d) (-) f(X) at d=0 vs the analytic Jacobian of the same call; '
+                               'manif/ceres functors (manifold Plus/Minus, local parameterisation, objective, constraint) through raw double* and Jet* arrays; argument rotation from every stratum incl. theta=0, below and just above sqrt(eps); '
+                               + RULE_STRATA, assumptions=ASSUME_FP + ['ceres::Jet is a stand-in with the same interface (Ceres is not installed); manif/ceres/*.h are compiled unchanged', 'manif/autodiff/*.h is NOT exercised (autodiff library absent; its expression templates cannot be imitated faithfully)',
+                                                                       'single-precision agreement with double is observed by C02/C03/C05/C06 float instantiations against the model, not here'])
+
 def c08_spec():
     groups = [('SO2', 'double'), ('SE2', 'double'), ('SO3', 'double'), ('SE3', 'double'), ('SE23', 'double'), ('SGAL3', 'double'), ('BT1', 'double'), ('BT4', 'double'), ('SO3', 'float'), ('SE2', 'float'), ('SE3', 'float')]
     scheds = ['uniform', 'square', 'xxinv', 'tiny', 'pi', 'pingpong']
@@ -439,6 +446,7 @@ REGISTRY['C19'] = c19_spec()
 # MANIFEST metadata
 # ------------------------------------------------------------------------------------------------
 ENGINES = [
+    {'name': 'dual-number monitor', 'path': '/verif/harness/c12_jet.cpp', 'serves_properties': ['C12'], 'kind_free_text': 'stand-in ceres::Jet (stubs/ceres/jet.h) so that manif/ceres/*.h compile unchanged; dual parts are the observed derivative'},
     {'name': 'bit-exact differential monitor', 'path': '/verif/harness/c09_pure.cpp', 'serves_properties': ['C09', 'C10', 'C11'], 'kind_free_text': 'same operands through different call forms / storage kinds / output subsets must give identical bits; guard zones and sanitizers watch memory'},
     {'name': 'tsan launcher', 'path': '/verif/harness/c14_threads.cpp', 'serves_properties': ['C14'], 'kind_free_text': 'ThreadSanitizer build launched many times; reports parsed from log_path files'},
     {'name': 'history monitor', 'path': '/verif/harness/c08_history.cpp', 'serves_properties': ['C08'], 'kind_free_text': 'online per-step invariant checker over random/adversarial operation sequences'},
@@ -484,6 +492,9 @@ MANIFEST_META = {
     'C11': dict(engine='bit-exact differential monitor', design_ref='DESIGN.md 4/C11', technique='bit-exact differential runtime monitor: bundle operation vs per-element operation at independently computed offsets; NaN-prefilled Jacobians',
                 text='For 21 layouts each bundle operation (exp, log, compose, inverse, between, rplus, lplus, rminus, lminus, act with both Jacobians, adj, hat, vee, rjac/ljac and inverses, smallAdj, bracket, generators, inner weights, Random, transform) is compared bit for bit with the same operation on each standalone element placed at the offset given by the monitor\'s own prefix sums; Jacobians pre-filled with NaN must come back block-diagonal with exact zeros elsewhere; element<i>() must alias exactly the i-th coefficients.',
                 note='Layouts are a fixed list covering every element group in first/middle/last position, repeats and single elements; inputs are random draws per layout. ' + NOTE_NUM),
+    'C12': dict(engine='dual-number monitor', design_ref='DESIGN.md 4/C12', technique='runtime monitor over a forward-mode dual-number scalar: primal vs double, dual parts vs analytic Jacobians, functors through raw pointers',
+                text='manif is instantiated over a ceres::Jet stand-in (manif/ceres headers compiled unchanged); for inverse, log, exp, rplus, lplus, compose, between, rminus, lminus and act the primal part must equal the double result (1e-11 of the operand scale, which admits the branch discontinuity exactly at a switch-over) and the dual parts of f(X (+) d) (-) f(X) at d=0 must reproduce the analytic Jacobian (1e-6 relative) for argument rotations at 0, below and just above the small-angle switch, generic and near pi; the manifold / local-parameterisation / objective / constraint functors are driven through raw double* and Jet* arrays and compared in value and derivative.',
+                note='The autodiff (autodiff::dual) glue cannot be executed here (library absent): a stated coverage gap. The Jet is a stand-in for ceres::Jet with the same interface. ' + NOTE_NUM),
     'C13': dict(engine='ref-model differential monitor', design_ref='DESIGN.md 4/C13', technique='runtime monitor of constructors/accessors vs model rotations, and of the validation threshold in an assertion-enabled and an NDEBUG build',
                 text='Every constructor and setter of every group is fed angles over +-200 periods and at k*pi/2 +- ulp, gimbal Euler angles, quaternions of both hemispheres and large translations; accessors must return the supplied quantities (exactly where the constructor copies), rotation() must equal the model rotation (Rz*Ry*Rx, Rodrigues) and be orthonormal with det +1, feeding accessors back must reproduce the transformation, cast<> must give an element accepted by the target type; 14 validating entry points must accept norm 1+-0.95 eps and reject 1+-1.05 eps with invalid_argument when assertions are on, and reject nothing with NDEBUG; normalize() must make data scaled by 1e+-150 acceptable.',
                 note='The band (0.95,1.05) eps around the threshold is sampled and only recorded (the computed norm carries ~2u of round-off). ' + NOTE_NUM),
